@@ -385,6 +385,7 @@ type lww struct {
 	classSuffix string
 	oneClass    string
 	notesOnly   bool // long-history: observed answers are notes, the canonical history is the program
+	pending     string
 }
 
 func (w *lww) hist(format string, a ...any) {
@@ -565,11 +566,13 @@ func (w *lww) del(name, id string) bool {
 	if missed && !fails && len(affected) > 0 {
 		// A replica did not see a delete that the client was told had succeeded. Which of the two
 		// equal-revision answers (tombstone / live) the liaison keeps must not depend on the order in
-		// which nodes answer: ask several times right away.
+		// which nodes answer (it iterates a Go map of node answers; with three nodes a given node comes
+		// first in as few as 1 of 8 iterations): ask often enough, right away, that an order-dependent
+		// answer shows in this run and not in a later operation.
 		w.e.Probe("reach.delete_missed_by_replica")
 		w.classSuffix = "-after-replica-missed-the-delete"
 		for _, k := range affected {
-			if !w.query(k.name, []string{k.id}, 0, 12) {
+			if !w.query(k.name, []string{k.id}, 0, 64) {
 				return false
 			}
 		}
@@ -601,14 +604,24 @@ func (w *lww) query(name string, ids []string, sorted int, reps int) bool {
 			w.fail("operations-succeed", "query-error", "query failed: %v", err)
 			return false
 		}
-		if !w.checkAnswer(name, ids, sorted, resp.Properties) {
+		if !w.checkAnswer(name, ids, sorted, resp.Properties, r) {
 			return false
 		}
 	}
 	return true
 }
 
-func (w *lww) checkAnswer(name string, ids []string, sorted int, props []*propertyv1.Property) bool {
+// logAnswer records an answer; repetitions of the same query are only recorded when they fail the oracle.
+func (w *lww) logAnswer(rep int, format string, a ...any) {
+	if rep == 0 {
+		w.pending = ""
+		w.hist(format, a...)
+		return
+	}
+	w.pending = fmt.Sprintf(format, a...) + fmt.Sprintf(" (asked again, #%d)", rep+1)
+}
+
+func (w *lww) checkAnswer(name string, ids []string, sorted int, props []*propertyv1.Property, rep int) bool {
 	want := map[mkey]bool{}
 	for _, k := range w.keys {
 		if k.name != name {
@@ -632,14 +645,14 @@ func (w *lww) checkAnswer(name string, ids []string, sorted int, props []*proper
 		gotDesc = append(gotDesc, fmt.Sprintf("%s{%s}", k, renderTags(p.Tags)))
 		if _, dup := got[k]; dup {
 			sort.Strings(gotDesc)
-			w.hist("#%d query %s %v sorted=%d -> %v", w.opSeq, name, ids, sorted, gotDesc)
+			w.logAnswer(rep, "#%d query %s %v sorted=%d -> %v", w.opSeq, name, ids, sorted, gotDesc)
 			w.fail("one-answer-per-key", "key-returned-twice", "key %s appears more than once in one answer: %v", k, gotDesc)
 			return false
 		}
 		got[k] = p
 	}
 	sort.Strings(gotDesc)
-	w.hist("#%d query %s %v sorted=%d -> %v", w.opSeq, name, ids, sorted, gotDesc)
+	w.logAnswer(rep, "#%d query %s %v sorted=%d -> %v", w.opSeq, name, ids, sorted, gotDesc)
 	for k, p := range got {
 		_ = p
 		if !want[k] {
@@ -719,6 +732,10 @@ func (w *lww) checkAnswer(name string, ids []string, sorted int, props []*proper
 }
 
 func (w *lww) fail(oracle, class, format string, a ...any) {
+	if w.pending != "" {
+		w.history = append(w.history, w.pending)
+		w.pending = ""
+	}
 	if w.oneClass != "" {
 		// long-history: every divergence from the map is one class (the detailed one is kept in the message)
 		w.e.Fail("long-history", w.oneClass, "[%s:%s] %s\nhistory:\n%s", oracle, class, fmt.Sprintf(format, a...), strings.Join(w.tail(), "\n"))
